@@ -13,6 +13,16 @@ from ..tlc import MachineryError
 from .c05 import MC_CFG, behaviours
 
 
+def design_classes():
+    """a batch may mix design classes (the algorithm's own subclass next to plain Individuals made by an evaluator or read from a store):
+    every one of them is a design of its own, with an id and a store row of its own"""
+    from artap.algorithm_NSGAII import IndividualNSGAII
+    from artap.algorithm_genetic import IndividualEpsMOEA
+    from artap.individual import Individual
+    # ... including design classes defined just now (every algorithm module defines its own subclass; so may a user's)
+    return [type("DesignA", (Individual,), {}), Individual, IndividualNSGAII, type("DesignB", (IndividualNSGAII,), {}), IndividualEpsMOEA]
+
+
 class Schedules(Part):
     steered_total = 0
     steered_realised = 0
@@ -83,6 +93,8 @@ class Schedules(Part):
         rec = jobrec.Rec(dim=2, m=rng.randint(1, 2), mode="parallel", workers=workers, gate=gates.gate, db=db, constrained=rng.random() < 0.5)
         rec.on_synced = gates.done
         rec.gate_begin = True
+        if case["cseed"] % 2:
+            rec.classes = design_classes()
         vectors = [[round(rng.uniform(-5, 5), 6) for _ in range(2)] for _ in range(n)]
         if rng.random() < 0.4:
             # replicated designs: distinct objects with identical coordinates (elites, particles clipped to a bound) are designs of their own
@@ -125,6 +137,8 @@ class Schedules(Part):
                     return "timeout"
             return "ok"
         rec = jobrec.Rec(dim=2, m=1, mode="parallel", workers=workers, gate=gate, script=script, db=db, constrained=rng.random() < 0.5)
+        if case["cseed"] % 2:
+            rec.classes = design_classes()
         vectors = [[round(rng.uniform(-5, 5), 6) for _ in range(2)] for _ in range(n)]
         for _ in range(rng.choice([0, 0, 1, 3])):
             i, j = rng.sample(range(n), 2)
